@@ -175,3 +175,82 @@ Proof.
     + apply (modelG H T); [apply agree_sym', setw_agree|apply setw_agree|]. intros g Hg. apply MH. now right.
 Qed.
 End Fresh.
+
+(* The same three statements for theories given as predicates (infinitely many formulas allowed: the program accumulated by an incremental run
+   is described that way in Model/CoreRun.v), with the auxiliary atoms given by their test and the constraints by a predicate. *)
+Section DefinitionalP.
+Variable A : Type.
+Variable isaux : A -> bool.
+Notation interp := (interp A).
+Notation form := (form A).
+Notation clean := (clean A isaux).
+Notation agree_user := (agree_clean A isaux).
+Variable P : theory A.
+Variable C : form -> Prop.
+Hypothesis P_clean : forall f, P f -> clean f.
+Definition okCP (T : interp) := forall c, C c -> csat A T c = false.
+Definition extendedP : theory A := fun f => P f \/ (exists x, isaux x = true /\ f = choice A x) \/ (exists c, C c /\ f = Not A c).
+Lemma frozen_choiceP (T : interp) :
+  equilibriumP A T extendedP <-> (modelP A T T P /\ okCP T /\ forall H, strict A H T -> agree_aux A isaux H T -> ~ modelP A H T P).
+Proof.
+  unfold equilibriumP, modelP. split.
+  - intros [M Min].
+    assert (okCP T) as Ok.
+    { intros c Hc. specialize (M (Not A c)). rewrite hsat_total in M. cbn in M.
+      assert (extendedP (Not A c)) as I by (right; right; eauto). apply M in I. destruct (csat A T c); [discriminate|reflexivity]. }
+    repeat split.
+    + intros f Hf. apply M. now left.
+    + exact Ok.
+    + intros H S Ag MP. apply (Min H S). intros f [Hf|[[x [Hx ->]]|[c [Hc ->]]]]; [auto| |].
+      * apply (proj2 (hsat_choice A isaux H T x (proj1 S))). intros Tx. rewrite Ag; auto.
+      * rewrite hsat_not by apply S. now rewrite (Ok c Hc).
+  - intros [MP [MC Min]]. split.
+    + intros f [Hf|[[x [Hx ->]]|[c [Hc ->]]]]; [auto| |].
+      * apply (proj2 (hsat_choice A isaux T T x (fun a h => h))). intros; assumption.
+      * rewrite hsat_total. cbn. now rewrite (MC c Hc).
+    + intros H S M. apply (Min H S).
+      * intros a Ha.
+        assert (hsat A H T (choice A a) = true) as Hc by (apply M; right; left; eauto).
+        pose proof (proj1 (hsat_choice A isaux H T a (proj1 S)) Hc) as Hc'.
+        destruct (T a) eqn:Ta; [apply Hc'; reflexivity|]. destruct (H a) eqn:Ha'; [|reflexivity]. apply (proj1 S) in Ha'. congruence.
+      * intros f Hf. apply M. now left.
+Qed.
+Lemma modelP_agree H T H' T' : agree_user H H' -> agree_user T T' -> modelP A H T P -> modelP A H' T' P.
+Proof. intros AH AT M f Hf. rewrite <- (hsat_clean A isaux H T H' T' f (P_clean f Hf) AH AT). now apply M. Qed.
+Notation userP := (user A isaux).
+Theorem observers_projectP (T : interp) : equilibriumP A T extendedP -> equilibriumP A (userP T) P.
+Proof.
+  rewrite frozen_choiceP. intros [M [_ Min]]. split.
+  - apply (modelP_agree T T); [intros a E; unfold user; now rewrite E|intros a E; unfold user; now rewrite E|exact M].
+  - intros H [L [a [Ta Ha]]] MH.
+    set (H' := fun b => if isaux b then T b else H b).
+    assert (isaux a = false) as Ea by (unfold user in Ta; destruct (isaux a); [discriminate|reflexivity]).
+    apply (Min H').
+    + split.
+      * intros b. unfold H'. destruct (isaux b) eqn:Eb; [auto|]. intros Hb. apply L in Hb. unfold user in Hb. now rewrite Eb in Hb.
+      * exists a. unfold H'. rewrite Ea. split; [|exact Ha]. unfold user in Ta. now rewrite Ea in Ta.
+    + intros b Eb. unfold H'. now rewrite Eb.
+    + apply (modelP_agree H (userP T)); [|intros b Eb; unfold user; now rewrite Eb|exact MH]. intros b Eb. unfold H'. now rewrite Eb.
+Qed.
+Theorem observers_liftP (U : interp) : (exists T, agree_user T U /\ okCP T) -> equilibriumP A U P -> exists T, agree_user T U /\ equilibriumP A T extendedP.
+Proof.
+  intros [T [Ag Ok]] [M Min]. exists T. split; [exact Ag|].
+  rewrite frozen_choiceP. split; [|split; [exact Ok|]].
+  - apply (modelP_agree U U); [intros a E; symmetry; now apply Ag|intros a E; symmetry; now apply Ag|exact M].
+  - intros H [L [a [Ta Ha]]] AgA MH.
+    assert (isaux a = false) as Ea.
+    { destruct (isaux a) eqn:Ea; [|reflexivity]. rewrite (AgA a Ea) in Ha. congruence. }
+    set (H' := fun b => if isaux b then U b else H b).
+    apply (Min H').
+    + split.
+      * intros b. unfold H'. destruct (isaux b) eqn:Eb; [auto|]. intros Hb. apply L in Hb. now rewrite (Ag b Eb) in Hb.
+      * exists a. unfold H'. rewrite Ea. split; [|exact Ha]. now rewrite <- (Ag a Ea).
+    + apply (modelP_agree H T); [|exact Ag|exact MH]. intros b Eb. unfold H'. now rewrite Eb.
+Qed.
+Theorem observers_no_duplicatesP (T T' : interp) :
+  (forall a, isaux a = true -> okCP T -> okCP T' -> agree_user T T' -> T a = T' a) ->
+  equilibriumP A T extendedP -> equilibriumP A T' extendedP -> agree_user T T' -> forall a, T a = T' a.
+Proof.
+  rewrite !frozen_choiceP. intros Uq [_ [Ok _]] [_ [Ok' _]] Ag a. destruct (isaux a) eqn:E; [now apply Uq|now apply Ag].
+Qed.
+End DefinitionalP.
